@@ -64,6 +64,15 @@ def distributions(quick):
     out.append(("shared-bnode", [T[3] + [G1], T[4] + [G2], [Bn("x"), P2, Bn("y"), D]]))
     out.append(("bnode-graph-only", [T[0] + [GB], T[3] + [GB]]))
     out.append(("two-bnode-graphs", [T[0] + [GB], T[1] + [Bn("gc")]]))
+    # rdf:Lists inside named graphs (the forms ( ... ), @list, parseType=Collection): every cell stays in the graph of its list
+    for gname, g in (("iri", G1), ("bnode", GB), ("default", D)):
+        h = Bn("l0")
+        for mname, members in (("res", [I(EX + "m1"), I(EX + "m2")]), ("lit", [L("a"), L("1", dt=shapes.XSD + "integer")]), ("mixed", [I(EX + "m1"), L("a"), Bn("x")])):
+            qs = [[S1, P1, h, g]] + [t + [g] for t in shapes.mklist(members, h, "l")]
+            out.append(("list-in-%s-graph:%s" % (gname, mname), qs))
+            out.append(("list-in-%s-graph:%s+other" % (gname, mname), qs + [T[0] + [D], T[1] + [G2]]))
+    out.append(("two-lists-two-graphs", [[S1, P1, Bn("l0"), G1]] + [t + [G1] for t in shapes.mklist([I(EX + "m1")], Bn("l0"), "l")]
+                + [[S1, P1, Bn("k0"), G2]] + [t + [G2] for t in shapes.mklist([I(EX + "m1"), I(EX + "m2")], Bn("k0"), "k")]))
     out.append(("graph-name-also-node", [[G1, P1, L("about g1"), D], T[0] + [G1]]))
     out.append(("bnode-graph-name-also-node", [[GB, P1, L("about gb"), D], T[0] + [GB]]))
     out.append(("bnode-graph-name-object-once", [[S1, P1, GB, D], T[0] + [GB]]))
@@ -94,5 +103,17 @@ def run(out, tier, seed):
         for b in sample:
             if all(q[3]["k"] != "bnode" or True for q in a + b):
                 jobs.append({"cfg": {}, "events": [{"op": "patch", "shape": "patch", "d1": [list(q) for q in a], "d2": [list(q) for q in b]}]})
+    # single-quad edits that keep every graph's size: a literal changed on a blank-node subject, a blank-node object swapped for another,
+    # a ground triple changed, a triple moved between graphs - in the default graph, an IRI-named and a blank-node-named graph
+    base = [[Bn("x"), P1, L("old"), D], [S1, P1, Bn("x"), D], [S1, P2, S2, D], [S1, P2, S2, G1], [Bn("y"), P1, L("v"), G1], [S2, P1, Bn("y"), G1],
+            [S1, P1, Bn("y"), GB], [Bn("x"), P2, Bn("y"), GB], [S2, P2, L("g"), GB]]
+    def edited(i, new):
+        return [list(new) if j == i else list(q) for j, q in enumerate(base)]
+    pairs = [edited(0, [Bn("x"), P1, L("new"), D]), edited(1, [S1, P1, Bn("y"), D]), edited(2, [S1, P2, S1, D]), edited(4, [Bn("y"), P1, L("w"), G1]), edited(5, [S2, P1, Bn("x"), G1]),
+             edited(6, [S1, P1, Bn("x"), GB]), edited(7, [Bn("y"), P2, Bn("x"), GB]), edited(8, [S2, P2, L("h"), GB]), edited(3, [S1, P2, S2, G2]), edited(0, [Bn("x"), P1, L("old"), G1]),
+             edited(4, [Bn("z"), P1, L("v"), G1])]
+    for b in pairs:
+        jobs.append({"cfg": {}, "events": [{"op": "patch", "shape": "patch-edit", "d1": [list(q) for q in base], "d2": b}]})
+        jobs.append({"cfg": {}, "events": [{"op": "patch", "shape": "patch-edit", "d1": b, "d2": [list(q) for q in base]}]})
     out.exhaustive = True
     out.conform(__name__, TRACE, jobs, nontrivial=nontrivial, chunk=400, par=16, heap="2g")
